@@ -123,7 +123,13 @@ def wide_dag(rng):
 
 
 def entities(rng, canary_dir):
-    k = rng.choice(("internal", "laughs", "external_general", "external_parameter", "external_http", "external_in_attr"))
+    k = rng.choice(("internal", "laughs", "external_general", "external_parameter", "external_http", "external_in_attr", "in_content", "in_content"))
+    if k == "in_content":
+        # an entity reference directly in <svg> / <g> content (not inside title/text)
+        ent = rng.choice(('<!ENTITY e "x">', f'<!ENTITY e SYSTEM "file://{canary_dir}/secret.txt">', '<!ENTITY e "<rect width=\'3\' height=\'3\'/>">'))
+        where = rng.choice(("svg", "g", "g2"))
+        body = {"svg": "&e;" + _rect(rng), "g": f"<g>&e;{_rect(rng)}</g>", "g2": f'<g opacity="0.5">{_rect(rng)}&e;{_rect(rng)}</g>'}[where]
+        return f'<?xml version="1.0"?><!DOCTYPE svg [{ent}]>{HDR}{body}</svg>', "entity_in_content_" + where
     if k == "internal":
         return f'<?xml version="1.0"?><!DOCTYPE svg [<!ENTITY c "red">]>{HDR}<rect width="10" height="10" fill="&c;"/></svg>', "entity_internal"
     if k == "laughs":
